@@ -135,7 +135,7 @@ func checkC10(c *Ctx) {
 	if vf != nil {
 		for _, r := range rejects {
 			if r.field == "Priority" {
-				s := fmtLits(r.lits)
+				s := strings.Join(r.lits, "; ")
 				if strings.Contains(s, "AllowPriorityTakeover") && strings.Contains(s, "Priority <= 0") {
 					found = true
 				}
